@@ -8,6 +8,8 @@ package xpull
 //@   immutable: p s closeQ
 //@
 //@ struct socket
+//@   close_token closeQ when closed
+//@   close_token sizeQ
 //@   lock Mutex level 20
 //@   guarded_by Mutex: closed sizeQ recvQ recvQLen resizeDiscards recvExpire
 //@   immutable: closeQ
@@ -54,3 +56,6 @@ package xpull
 //@   ghost was = s.closed at call:Lock#1
 //@   ensures was ==> result == protocol.ErrClosed
 //@   ensures !was ==> isnil(result) && s.closed && closed(s.closeQ)
+//@
+//@ func (*socket).RemovePipe
+//@   may_close p.closeQ caller
